@@ -2,6 +2,7 @@
 package checks
 
 import (
+	"context"
 	"fmt"
 	"hash/fnv"
 
@@ -70,3 +71,5 @@ func sampleOfN(c run.Ctx, cfg gen.Config, u gen.Universe, ops []seq.Op, n int) a
 	}
 	return map[string]any{"case": c.ID(), "config": cfg, "universe": u.Desc, "keys": keys, "ops": opsStrings(ops, n)}
 }
+
+func bgctx() context.Context { return context.Background() }
